@@ -209,7 +209,7 @@ namespace
          "a move/move-assignment/swap with >=3 live allocations (>=2 blocks for growing subjects), "
          "followed by >=2 more operations on the new owner, moved-from object destroyed"},
         {"C15", O_CORE | O_LEAK, FB(F_POOL) | FB(F_COLL) | FB(F_STACK),
-         {30, 16, 0, 0, 24, 0, 2, 2, 0, 1, 1, 5, 5, 2, 3, 1, 0, 1, 0, 0, 0, 0, 0, 0, 0, 0, 0, 0, 3}, 120, false,
+         {30, 16, 4, 4, 24, 0, 2, 2, 0, 1, 1, 5, 5, 2, 3, 1, 0, 1, 0, 0, 0, 0, 0, 0, 0, 0, 0, 0, 3}, 120, false,
          "net != 0 at destruction after >=1 move, or >=1 array with element size != node size, or a low-level "
          "allocator history in a child process whose exit report is compared with its net"},
         {"C16", O_CORE | O_NOREPORT | O_BADREL, FB(F_POOL) | FB(F_COLL) | FB(F_STACK),
@@ -634,7 +634,8 @@ namespace
         {
             Iface i = want_try ? COMPOSABLE : Iface((c + P(10)) % 3);
             if (mode.oracles & O_LEAK)
-                i = TRAITS; // C15 quantifies over traits-level calls
+                i = want_try ? COMPOSABLE : TRAITS; // C15 quantifies over traits-level calls; what goes through
+                                                    // the composable interface must not move the count
             if (i == COMPOSABLE && !s->has_composable)
                 i = TRAITS;
             if (i == MEMBER && !s->has_member)
